@@ -9,11 +9,11 @@ BASE_NOTE = ("Trusted base: the vsym interpreter's go/ssa semantics (cross-check
 
 CHECKS = {
  "C01": dict(
-   text="One inductive step of every array operation (Get/Set/Insert/Append/Remove) from ANY array tree satisfying the representation invariant within the shape bound, element sizes symbolic: results equal the slice model, in-range requests never fail, VerifyArray + content + reopen-by-root-id hold afterwards, storage holds exactly the reachable slabs. The solver decides all size mixes at once; indices and shapes are forked.",
+   text="One inductive step of every array operation (Get/Set/Insert/Append/Remove) from ANY array tree satisfying the representation invariant within the shape bound, element sizes symbolic: results equal the slice model, in-range requests never fail, VerifyArray + content + reopen-by-root-id hold afterwards, storage holds exactly the reachable slabs. The solver decides all size mixes at once; indices and shapes are forked. Any 64-bit out-of-range index on Get/Set/Insert/Remove fails with index-out-of-bounds and changes nothing; the slab size T is symbolic over 256..32768 in the step harness.",
    note="Bounds: slab size T=256; root leaf with 0..3 (quick) / 0..5 (thorough) elements or root index slab over 2 (quick) / 2..3 (thorough) leaves of 2..3 / 2..5 elements; new element size 1..65536 (externalised through the real NewStorableSlab when above the inline limit). Outside: deeper trees, nested containers (see C10), other T.",
    ref="6/C01"),
  "C02": dict(
-   text="One inductive step of every map operation (Get/Has of absent keys, Set new, Set existing, Remove present, Remove absent) from ANY map of single elements satisfying the representation invariant within the shape bound; all four digest levels of every key and all key/value sizes are symbolic, so one verdict covers every hash distribution: results equal the dictionary model, key-not-found exactly for absent keys, VerifyMap (which re-hashes every key) + content + reopen-by-root-id hold afterwards.",
+   text="One inductive step of every map operation (Get/Has of absent keys, Set new, Set existing, Remove present, Remove absent) from ANY map of single elements satisfying the representation invariant within the shape bound; all four digest levels of every key and all key/value sizes are symbolic, so one verdict covers every hash distribution: results equal the dictionary model, key-not-found exactly for absent keys, VerifyMap (which re-hashes every key) + content + reopen-by-root-id hold afterwards. A second step harness starts from states holding a collision group of 3 keys (inline group, external group slab, or last-level list of fully colliding keys) next to single elements, with operations on members and non-members; a pool harness shows that a recycled digester carries no state.",
    note="Bounds: T=256; root leaf with 0..3 (quick) / 0..4 (thorough) keys or root index slab over 2 / 2..3 leaves of 2..3 / 2..4 keys; new value size 1..65536. Pre-states hold single elements only; collision groups are reached through C12's API-built histories. Outside: deeper trees, nested containers as values.",
    ref="6/C02"),
  "C06": dict(
@@ -25,7 +25,7 @@ CHECKS = {
    note="Bounds: T=256; up to 2/3 top-level elements, nesting depth 1/2, 2/3 map keys over 2 or 4 digest levels. The repository's own VerifyArraySerialization/VerifyMapSerialization are part of the oracle (executed symbolically) next to harness assertions for flags. Outside: compact (same-typed composite) inlined maps, inlined maps as array elements, version-0 data slabs.",
    ref="6/C07"),
  "C08": dict(
-   text="(1) Reload relation on every field operations read: the decoded slab of every C07 scenario is field-equal to the in-memory one (cached sizes at every nesting level, counts, first keys, next, inlined status). (2) Differential run with the real codec over two ledgers: the same build + operation (append / set / remove / mutate nested child, values symbolic) executed warm and under a symbolic schedule of {commit; commit+drop cache; commit+reopen from ledger}: same counts, both valid, and byte-identical final registers.",
+   text="(1) Reload relation on every field operations read: the decoded slab of every C07 scenario is field-equal to the in-memory one (cached sizes at every nesting level, counts, first keys, next, inlined status). (2) Differential run with the real codec over two ledgers: the same build + operation (append / set / remove / mutate nested child, values symbolic) executed warm and under a symbolic schedule of {commit; commit+drop cache; commit+reopen from ledger}: same counts, both valid, and byte-identical final registers. Compact (same-typed composite) inlined maps: with the real hash functions linked into the engine, a parent holding 2 (quick) / 3 (thorough) compact child maps is run warm and after commit+drop/reopen; removing/overwriting/adding a field of one child yields identical field sets and values in every child in both runs.",
    note="Bounds: arrays of 1..2 scalars (+ optional inlined child, + optional 4 large elements to span several slabs); one canonical goroutine schedule for the commits (interleavings are C16's subject). Outside: maps in the differential run, longer schedules (the reduction 'overlay + dirty marks + reload equality' is C15/C03/C07).",
    ref="6/C08"),
  "C09": dict(
@@ -37,7 +37,7 @@ CHECKS = {
    note="Bounds: T=256, nesting depth 2 (array in array), 0..1 (quick) / 0..2 (thorough) siblings. Outside: maps as parent/child (being added), depth 3, wrapped children.",
    ref="6/C10"),
  "C11": dict(
-   text="All histories of 2 (quick) / 3 (thorough) operations after a nested array (inlined or standalone by solver-chosen sizes) was detached from its parent by Remove or by overwrite, using a stale handle (the attached one or one obtained by lookup): stale append / remove / bulk pop, parent mutations in between, and a new child placed at the old position followed by a stale mutation. After every operation the former parent passes VerifyArray with unchanged content and size bookkeeping; the detached child keeps its value id, is standalone, reloadable by identifier with the expected content, and can be re-attached to a new parent and mutated through the same handle.",
+   text="All histories of 2 (quick) / 3 (thorough) operations after a nested array (inlined or standalone by solver-chosen sizes) was detached from its parent by Remove or by overwrite, using a stale handle (the attached one or one obtained by lookup): stale append / remove / bulk pop, parent mutations in between, and a new child placed at the old position followed by a stale mutation. After every operation the former parent passes VerifyArray with unchanged content and size bookkeeping; the detached child keeps its value id, is standalone, reloadable by identifier with the expected content, and can be re-attached to a new parent and mutated through the same handle. A second harness uses a MAP as the former parent: the child is detached by removing its key or overwriting it with a plain value or another container (inlined or standalone); after every stale mutation the parent's size, validity, the replacement under the key and the sibling entry are unchanged.",
    note="Bounds: T=256, child with 0..2 elements at detachment, 0..1 siblings on each side. Outside: maps as parent/child, wrapped children, bulk-pop of the parent followed by a stale handle.",
    ref="6/C11"),
  "C12": dict(
@@ -45,15 +45,15 @@ CHECKS = {
    note="Bounds: T=256, value sizes 1..300, keys within the inline key limit. Outside: more keys per group (limits above the number of keys behave as 'never reached'), external collision groups larger than the bound.",
    ref="6/C12"),
  "C03": dict(
-   text="Storage half of the property, decided on the real PersistentSlabStorage over a ledger double: from ANY coherent (write set, cache, ledger) state over the identifier universe, no API call other than the two commits issues a ledger write or delete; a commit never writes a temporary-address slab; after a fault-free commit a brand-new storage over the same ledger shows exactly the pre-commit view for every owned identifier (so abandoning the in-memory storage at any point leaves the last commit). Dirty-mark completeness of container operations is asserted by the C10 nested-history harness through VerifyArray on the parent (stale parent detection); byte-level reload equality is C07/C08's subject.",
+   text="Storage half of the property, decided on the real PersistentSlabStorage over a ledger double: from ANY coherent (write set, cache, ledger) state over the identifier universe, no API call other than the two commits issues a ledger write or delete; a commit never writes a temporary-address slab; after a fault-free commit a brand-new storage over the same ledger shows exactly the pre-commit view for every owned identifier (so abandoning the in-memory storage at any point leaves the last commit). Dirty-mark completeness of container operations is asserted by the C10 nested-history harness through VerifyArray on the parent (stale parent detection); byte-level reload equality is C07/C08's subject. Dirty-mark completeness: in the C01/C02 step harnesses every slab whose content signature changed and every new slab must have been passed to Store by the operation (so the next commit persists it). A warm-vs-{commit, drop cache, reopen} differential with the real codec is shared with C08.",
    note="Bounds: 3 (quick) / 4 (thorough) identifiers incl. one temporary, every combination of {absent, pending delete, pending version} x {nothing, ledger only, cached delete, cached+ledger}, versions symbolic; commits with 1 (quick) / 1..2 (thorough) workers as modelled goroutines. EncodeSlab/DecodeSlab are replaced by an abstract 9-byte codec inside the engine (native replay uses the real codec). Outside: the composition argument 'step + dirty marks + reload equality => every history' is manual.",
    ref="6/C03"),
  "C04": dict(
-   text="Both commits on the real storage with modelled goroutines, ALL Go map iteration orders of the write set explored (range over map forks over every remaining entry) and all sync-level interleavings of the encoder workers (up to partial-order equivalence): the deterministic commit issues exactly one ledger call per owned pending entry in strictly ascending (owner, index) order; the relaxed commit issues the same set in some order; the resulting registers depend only on the write set.",
+   text="Both commits on the real storage with modelled goroutines, ALL Go map iteration orders of the write set explored (range over map forks over every remaining entry) and all sync-level interleavings of the encoder workers (up to partial-order equivalence): the deterministic commit issues exactly one ledger call per owned pending entry in strictly ascending (owner, index) order; the relaxed commit issues the same set in some order; the resulting registers depend only on the write set. Pool reuse is transparent: whatever state a digester / encode buffer / type-id buffer is in when returned, the next Get behaves like a fresh object (LIFO pool model = worst case); the real encoders return every pooled buffer exactly once, also on element-encode errors.",
    note="Bounds: 3 pending entries over 2 owners (+ optional temporary one), 1 (quick) / 1..2 (thorough) workers. Outside: pool reuse and encoder-internal map ranges (need the byte-level encoders, see C06/C07 stage), fresh-process effects.",
    ref="6/C04"),
  "C13": dict(
-   text="On every array/map shape of the step harnesses: mutable, read-only, range (all valid bounds), keys-only, values-only and loaded-value iteration each yield exactly the model sequence (arrays in index order, maps in ascending digest order); loaded-value iteration with EVERY subset of leaves reported as not loaded yields exactly the in-order subsequence of loaded leaves; overwriting the current element at any position during mutable iteration with a value of symbolic size (which may split the leaf under the cursor) neither skips nor repeats; bulk pop yields reverse order, leaves a valid empty container and releases every auxiliary slab.",
+   text="On every array/map shape of the step harnesses: mutable, read-only, range (all valid bounds), keys-only, values-only and loaded-value iteration each yield exactly the model sequence (arrays in index order, maps in ascending digest order); loaded-value iteration with EVERY subset of leaves reported as not loaded yields exactly the in-order subsequence of loaded leaves; overwriting the current element at any position during mutable iteration with a value of symbolic size (which may split the leaf under the cursor) neither skips nor repeats; bulk pop yields reverse order, leaves a valid empty container and releases every auxiliary slab. Fully colliding keys (last-level list) enumerate in insertion order after every group-step operation.",
    note="Bounds: as C01/C02 shapes (T=256). Outside: collision groups spanning slabs, mutation of nested children during iteration and the read-only-iterator mutation error (being added), invalid ranges (asserted under C18).",
    ref="6/C13"),
  "C14": dict(
@@ -62,14 +62,14 @@ CHECKS = {
    ref="6/C14"),
  "C15": dict(
    text="One inductive step of every storage API call (Store, Remove, RetrieveIfLoaded, RetrieveIgnoringDeltas with/without cache fill, undefined-id rejection, both commits, drop write set+cache, sequential BatchPreload) from ANY coherent (write set, cache, ledger) state: afterwards Retrieve shows the pure overlay model's view for every identifier (most recent store/remove, else committed), commits make the ledger equal the view on owned ids and empty the owned write set, drops revert to the last commit, preload and cache-bypassing reads leave the view unchanged; Deltas / DeltasWithoutTempAddresses agree with the model. The coherence invariant is re-established, so the step is inductive.",
-   note="Bounds and stubs as C03. Outside: BatchPreload's parallel path (>=11 ids), DeltasSizeWithoutTempAddresses/HasUnsavedChanges (being added).",
+   note="Bounds and stubs as C03. Outside: BatchPreload's parallel path (>=11 ids), DeltasSizeWithoutTempAddresses/HasUnsavedChanges (being added). Quick: 3 owned identifiers over two owners plus a separate run with 1 owned + 1 temporary identifier; thorough: 3 owned, and 2 owned + temporary.",
    ref="6/C15"),
  "C16": dict(
-   text="FastCommit and NondeterministicFastCommit with 2 workers as modelled goroutines: every sync-level interleaving (up to partial-order equivalence) of workers and committer is explored with a vector-clock happens-before detector on every heap and map access; a data race, deadlock, send on closed channel or panic in a worker is a violation (races are confirmed natively with the Go race detector before being reported). The parallel result (registers, write set, cache, error) equals the sequential overlay model, with symbolic encode failures per slab.",
+   text="FastCommit and NondeterministicFastCommit with 2 workers as modelled goroutines: every sync-level interleaving (up to partial-order equivalence) of workers and committer is explored with a vector-clock happens-before detector on every heap and map access; a data race, deadlock, send on closed channel or panic in a worker is a violation (races are confirmed natively with the Go race detector before being reported). The parallel result (registers, write set, cache, error) equals the sequential overlay model, with symbolic encode failures per slab. Pool discipline of the real encoders over the real CBOR library: after encoding an array, a map or an array with an inlined child -- successfully or with the first or second element failing -- two consecutive Gets from each process-wide pool return distinct objects (no buffer was returned twice).",
    note="Bounds: 2 (quick) / 3 (thorough) pending entries, 2 workers; scheduling points at channel send/receive, blocking select and WaitGroup.Wait (close, non-blocking select and Done are ordered with their goroutine's neighbouring points). EncodeSlab is the abstract codec, so races inside the real encoders/pools are not seen here. Outside: BatchPreload's parallel path, independent client goroutines sharing the process-wide pools (sequential pool discipline only), GOMAXPROCS/real-scheduler effects.",
    ref="6/C16"),
  "C17": dict(
-   text="NewArrayFromBatchData on every stream of 0..7 (quick) / 0..10 (thorough) elements of symbolic size (incl. larger than the inline limit): result passes VerifyArray, equals the stream, leaks nothing and accepts a further operation; NewMapFromBatchData on 0..3 / 0..4 keys with all digests symbolic: unsorted first-level digests are rejected with HashError, otherwise VerifyMap, content, given seed, and source order (without first-level collisions); CopyNonRefSimple is offered exactly for single-slab arrays whose elements are all plain (symbolic mix of plain, wrapped, large-value reference and nested array), then succeeds with a valid, equal, fresh-id copy that is independent of the source under mutation of either; byte slice <-> byte array round-trips for symbolic bytes and symbolic size estimate (both build paths), rejecting foreign elements as a caller mistake.",
+   text="NewArrayFromBatchData on every stream of 0..7 (quick) / 0..10 (thorough) elements of symbolic size (incl. larger than the inline limit): result passes VerifyArray, equals the stream, leaks nothing and accepts a further operation; NewMapFromBatchData on 0..3 / 0..4 keys with all digests symbolic: unsorted first-level digests are rejected with HashError, otherwise VerifyMap, content, given seed, and source order (without first-level collisions); CopyNonRefSimple is offered exactly for single-slab arrays whose elements are all plain (symbolic mix of plain, wrapped, large-value reference and nested array), then succeeds with a valid, equal, fresh-id copy that is independent of the source under mutation of either; byte slice <-> byte array round-trips for symbolic bytes and symbolic size estimate (both build paths), rejecting foreign elements as a caller mistake. Map copy: offered for single-slab maps of plain values, yields a valid equal map with a fresh identifier that stays independent of the source under remove / insert (any digest) / update applied to either.",
    note="Bounds: T=256; lengths as stated (so multi-level index tails only up to what 10 elements produce). Outside: tens of thousands of elements, map copy, underfull last index slab at higher levels.",
    ref="6/C17"),
  "C18": dict(
@@ -85,7 +85,7 @@ CHECKS = {
    note="Bounds: 3 (quick) / 5 (thorough) slabs, every parent assignment, one reference optionally nested in a non-reference wrapper, expected root count symbolic in -1..n+1. Outside: larger graphs; cyclic graphs (not produced by valid histories or the named corruptions; the engine observed that CheckStorageHealth does not terminate on some cycles, recorded in DESIGN.md as an observation outside C20).",
    ref="6/C20"),
  "C05": dict(
-   text="Split arithmetic of array data slabs for every legal slab size (T symbolic 256..32768) and every element-size mix within the inline limit: both halves inside [min,max], non-empty, sizes/counts/order/next-chain consistent; plus the tree invariant (VerifyArray) after every step of the C01 harness.",
+   text="Split arithmetic of array data slabs for every legal slab size (T symbolic 256..32768) and every element-size mix within the inline limit: both halves inside [min,max], non-empty, sizes/counts/order/next-chain consistent; plus the tree invariant (VerifyArray) after every step of the C01 harness. Rebalance/merge kernel: two sibling leaves of 1..4 (quick) / 1..8 (thorough) elements, one underflowing by at most one element, T symbolic: if the real CanLend* says yes the real LendToRight/BorrowFromRight leaves both inside the band, otherwise the real Merge does not overflow; sizes, counts, order and next-chain preserved. Batch builds and collision-group steps are checked with VerifyArray/VerifyMap too.",
    note="Bounds: leaves of 2..8 (quick) / 2..24 (thorough) elements for the split kernel; tree-level invariant as C01. Outside: larger leaves, map slabs (being added).",
    ref="6/C05"),
 }
